@@ -49,10 +49,11 @@ Acceptable(s, term) ==
         F2 == IF term \in {"datatimeout", "timeout"} THEN F \cup {<<>>} ELSE F
     IN  {T \o f : f \in F2}
 
-\* length of the longest line of s including its terminator (what a bounded reader must hold)
+\* length of the longest line of s including its terminator (what a bounded reader must hold; an
+\* unterminated final line is counted as if its terminator were still to come)
 RECURSIVE MaxLineFrom(_, _, _, _)
 MaxLineFrom(s, a, i, m) ==
-    IF i > Len(s) THEN (IF i - a > m THEN i - a ELSE m)
+    IF i > Len(s) THEN (IF i > a /\ i - a + 1 > m THEN i - a + 1 ELSE m)
     ELSE IF s[i] = "LF" THEN MaxLineFrom(s, i + 1, i + 1, IF i - a + 1 > m THEN i - a + 1 ELSE m)
     ELSE MaxLineFrom(s, a, i + 1, m)
 MaxLine(s) == MaxLineFrom(s, 1, 1, 0)
